@@ -1104,16 +1104,36 @@ func checkRegistration(r *Report, p *Prog) {
 	for _, nf := range sortedFns(p, endpointNormalisers(p)) {
 		checkNormaliserIdentity(r, p, nf, rule)
 	}
+	// Metadata() with the helpers it is split into (endpoint lists, key descriptors, KeyInfo literal)
+	rg := NewRegion(p, md, 2)
+	type fieldStore struct {
+		st *ssa.Store
+		c  *rctx
+	}
+	regionFields := func(typ, field string) []fieldStore {
+		var out []fieldStore
+		seen := map[*ssa.Store]bool{}
+		for _, c := range rg.all {
+			for _, st := range litFields(c.fn, modPath, typ)[field] {
+				if !seen[st] {
+					seen[st] = true
+					out = append(out, fieldStore{st, c})
+				}
+			}
+		}
+		return out
+	}
 	// a POST ACS endpoint at the expected location
 	okACS := false
 	var seen []string
-	for _, st := range litFields(md, modPath, "IndexedEndpoint")["Binding"] {
-		fa := st.Addr.(*ssa.FieldAddr)
-		bind := fm.AP(st.Val)
+	for _, fs := range regionFields("IndexedEndpoint", "Binding") {
+		fa := fs.st.Addr.(*ssa.FieldAddr)
+		xfc := rg.Ctx(am, fs.c)
+		bind := xfc.AP(fs.st.Val)
 		loc := ""
-		for _, s2 := range litFields(md, modPath, "IndexedEndpoint")["Location"] {
+		for _, s2 := range litFields(fs.c.fn, modPath, "IndexedEndpoint")["Location"] {
 			if s2.Addr.(*ssa.FieldAddr).X == fa.X {
-				loc = fm.AP(s2.Val)
+				loc = xfc.AP(s2.Val)
 			}
 		}
 		seen = append(seen, bind+" @ "+loc)
@@ -1124,16 +1144,18 @@ func checkRegistration(r *Report, p *Prog) {
 	r.Check(okACS, rule, "metadata offers an HTTP-POST assertion consumer service at the recipient the SP insists on", p.Pos(md.Pos()), strings.Join(seen, "; "), fmt.Sprintf("published endpoints %v, expected an HTTP-POST endpoint at %v", seen, rcptWant))
 	// the encryption key descriptor carries the SP certificate
 	okEnc := false
-	for _, st := range litFields(md, modPath, "KeyDescriptor")["Use"] {
-		if s, _ := constStr(st.Val); s == "encryption" {
+	for _, fs := range regionFields("KeyDescriptor", "Use") {
+		if s, _ := constStr(fs.st.Val); s == "encryption" {
 			okEnc = true
 		}
 	}
 	hasCertGuard := false
-	for _, st := range litFields(md, modPath, "X509Certificate")["Data"] {
-		if c, ok := st.Val.(*ssa.Call); ok && calleeIs(c, "(*encoding/base64.Encoding).EncodeToString") {
-			if strings.Contains(fm.AP(c.Call.Args[1]), "Certificate.Raw") || derivesFromCertRaw(c.Call.Args[1], 0) {
-				hasCertGuard = true
+	for _, fs := range regionFields("X509Certificate", "Data") {
+		for _, o := range rg.Origins(RV{V: fs.st.Val, C: fs.c}) {
+			if c, ok := o.V.(*ssa.Call); ok && calleeIs(c, "(*encoding/base64.Encoding).EncodeToString") {
+				if strings.Contains(rg.Ctx(am, o.C).AP(c.Call.Args[1]), "Certificate.Raw") || derivesFromCertRaw(c.Call.Args[1], 0) {
+					hasCertGuard = true
+				}
 			}
 		}
 	}
@@ -1152,13 +1174,15 @@ func checkRegistration(r *Report, p *Prog) {
 		}
 	}
 	if needRSA {
-		fm.ensureConds()
-		for _, st := range litFields(md, modPath, "KeyDescriptor")["Use"] {
+		for _, fs := range regionFields("KeyDescriptor", "Use") {
+			st := fs.st
 			if s, _ := constStr(st.Val); s != "encryption" {
 				continue
 			}
 			guarded := false
-			cnd := fm.Cond(st.Block())
+			xfc := rg.Ctx(am, fs.c)
+			xfc.ensureConds()
+			cnd := xfc.AbsCond(st.Block())
 			for _, nm := range am.B.Support(cnd) {
 				ai := am.Atoms[nm]
 				isTypeTest := strings.HasPrefix(nm, "ok:") || ai != nil && (ai.Kind == "typeis" || ai.Kind == "ok")
